@@ -652,7 +652,7 @@ pub fn run(args: &Args) {
     if !only { lines.extend(generate(args)); }
     for l in &lines {
         crate::asyncx::PANIC_LOG.with(|p| p.borrow_mut().clear());
-        if std::env::var("VERIF_TRACE_CASES").is_ok() { let _ = std::fs::write(args.out.join("assr.current"), l); }
+        begin_case(l);
         let (obs, mut verdict, nt) = exec(l);
         let panics: Vec<String> = crate::asyncx::PANIC_LOG.with(|p| p.borrow_mut().drain(..).collect());
         if verdict.is_none() && !panics.is_empty() && !obs.contains("panic") {
